@@ -111,3 +111,10 @@ CORPUS += [
         self._handshake_pending = False
 """, "S"),
 ]
+# round 11 (C05.t4): a response only reaches the decoder if reassembly delivers it
+CORPUS += [
+    M("v3-no-marker-clears-buffer", L, """                    "Peer %s: No start of packet found. Buffer: %s", self.peer, self._buffer.hex())
+                return""", """                    "Peer %s: No start of packet found. Buffer: %s", self.peer, self._buffer.hex())
+                self._buffer.clear()
+                return"""),
+]
